@@ -2,6 +2,7 @@ package ir
 
 import (
 	"fmt"
+	"go/constant"
 	"go/token"
 	"go/types"
 	"sort"
@@ -26,6 +27,10 @@ type Query struct {
 	BlockEdge func(from, to *ssa.BasicBlock) bool // path may not take these edges
 	Target    func(ssa.Instruction) bool          // where the path must arrive
 	MaxStates int
+	// TrackConsts makes the search carry the values of integer/boolean SSA values that are constant along the
+	// path (phi operands selected by the incoming edge, arithmetic and comparisons on known values) and prune
+	// branches whose condition is known: path-sensitive constant propagation, not execution.
+	TrackConsts bool
 }
 
 // Witness is a counterexample path: the sequence of blocks and the arriving instruction.
@@ -58,8 +63,9 @@ func instrStr(in ssa.Instruction) string {
 var ErrUndecided = fmt.Errorf("path query exceeded its state bound")
 
 type pstate struct {
-	blk   int
-	facts string
+	blk    int
+	facts  string
+	consts string
 }
 
 // Find runs the query. It returns (witness, nil) when a path exists, (nil, nil) when none exists
@@ -75,10 +81,12 @@ func (q Query) Find() (*Witness, error) {
 	}
 	// blocks in which each condition value is (re)defined
 	type item struct {
-		blk   *ssa.BasicBlock
-		start int // instruction index to start scanning at
-		facts map[ssa.Value]bool
-		trail []int
+		blk    *ssa.BasicBlock
+		start  int // instruction index to start scanning at
+		facts  map[ssa.Value]bool
+		trail  []int
+		consts map[ssa.Value]constant.Value
+		prev   *ssa.BasicBlock
 	}
 	encode := func(m map[ssa.Value]bool) string {
 		if len(m) == 0 {
@@ -113,7 +121,7 @@ func (q Query) Find() (*Witness, error) {
 				init[f.Cond] = f.True
 			}
 		}
-		start = item{b, idx + 1, init, []int{b.Index}}
+		start = item{blk: b, start: idx + 1, facts: init, trail: []int{b.Index}}
 	case q.FromBlock != nil:
 		for _, f := range Facts(q.FromBlock) {
 			f = f.StripNot()
@@ -121,9 +129,9 @@ func (q Query) Find() (*Witness, error) {
 				init[f.Cond] = f.True
 			}
 		}
-		start = item{q.FromBlock, 0, init, []int{q.FromBlock.Index}}
+		start = item{blk: q.FromBlock, facts: init, trail: []int{q.FromBlock.Index}}
 	default:
-		start = item{fn.Blocks[0], 0, init, []int{0}}
+		start = item{blk: fn.Blocks[0], facts: init, trail: []int{0}}
 	}
 	seen := map[pstate]bool{}
 	work := []item{start}
@@ -136,6 +144,9 @@ func (q Query) Find() (*Witness, error) {
 			return nil, ErrUndecided
 		}
 		blocked := false
+		if q.TrackConsts {
+			it.consts = evalBlockConsts(it.blk, it.prev, it.consts, it.start)
+		}
 		for i := it.start; i < len(it.blk.Instrs); i++ {
 			in := it.blk.Instrs[i]
 			if q.Target != nil && q.Target(in) {
@@ -154,6 +165,14 @@ func (q Query) Find() (*Witness, error) {
 				continue
 			}
 			nf := it.facts
+			if q.TrackConsts {
+				if ef := EdgeFact(it.blk, s); ef != nil {
+					f := ef.StripNot()
+					if cv, ok := it.consts[f.Cond]; ok && cv.Kind() == constant.Bool && constant.BoolVal(cv) != f.True {
+						continue // the branch condition is known on this path
+					}
+				}
+			}
 			if ef := EdgeFact(it.blk, s); ef != nil {
 				f := ef.StripNot()
 				if known, ok := it.facts[f.Cond]; ok {
@@ -170,7 +189,7 @@ func (q Query) Find() (*Witness, error) {
 			}
 			// entering s re-executes the definitions inside s: forget facts about values defined there
 			nf = dropDefinedIn(nf, s, it.facts)
-			st := pstate{s.Index, encode(nf)}
+			st := pstate{s.Index, encode(nf), encodeConsts(it.consts, it.blk, s)}
 			if seen[st] {
 				continue
 			}
@@ -179,10 +198,95 @@ func (q Query) Find() (*Witness, error) {
 			if len(tr) > 64 {
 				tr = tr[len(tr)-64:]
 			}
-			work = append(work, item{s, 0, nf, tr})
+			work = append(work, item{blk: s, facts: nf, trail: tr, consts: it.consts, prev: it.blk})
 		}
 	}
 	return nil, nil
+}
+
+// evalBlockConsts returns the constant environment after the instructions of b (from index `from`), entered
+// from prev with environment env.
+func evalBlockConsts(b, prev *ssa.BasicBlock, env map[ssa.Value]constant.Value, from int) map[ssa.Value]constant.Value {
+	out := make(map[ssa.Value]constant.Value, len(env)+4)
+	for k, v := range env {
+		out[k] = v
+	}
+	val := func(v ssa.Value) constant.Value {
+		if c, ok := v.(*ssa.Const); ok {
+			if c.Value != nil && (c.Value.Kind() == constant.Int || c.Value.Kind() == constant.Bool) {
+				return c.Value
+			}
+			return nil
+		}
+		return out[v]
+	}
+	for i, in := range b.Instrs {
+		if i < from {
+			continue
+		}
+		switch x := in.(type) {
+		case *ssa.Phi:
+			delete(out, x)
+			if prev != nil {
+				for j, p := range b.Preds {
+					if p == prev {
+						// phis are evaluated simultaneously on the values of the previous block: use env, not out
+						var cv constant.Value
+						if c, ok := x.Edges[j].(*ssa.Const); ok {
+							if c.Value != nil && (c.Value.Kind() == constant.Int || c.Value.Kind() == constant.Bool) {
+								cv = c.Value
+							}
+						} else {
+							cv = env[x.Edges[j]]
+						}
+						if cv != nil {
+							out[x] = cv
+						}
+					}
+				}
+			}
+		case *ssa.BinOp:
+			delete(out, x)
+			a, c := val(x.X), val(x.Y)
+			if a == nil || c == nil {
+				continue
+			}
+			switch x.Op {
+			case token.ADD, token.SUB, token.MUL:
+				if a.Kind() == constant.Int && c.Kind() == constant.Int {
+					out[x] = constant.BinaryOp(a, x.Op, c)
+				}
+			case token.EQL, token.NEQ, token.LSS, token.LEQ, token.GTR, token.GEQ:
+				if a.Kind() == c.Kind() {
+					out[x] = constant.MakeBool(constant.Compare(a, x.Op, c))
+				}
+			}
+		case *ssa.UnOp:
+			delete(out, x)
+			if x.Op == token.NOT {
+				if a := val(x.X); a != nil && a.Kind() == constant.Bool {
+					out[x] = constant.MakeBool(!constant.BoolVal(a))
+				}
+			}
+		default:
+			if v, ok := in.(ssa.Value); ok {
+				delete(out, v)
+			}
+		}
+	}
+	return out
+}
+
+func encodeConsts(m map[ssa.Value]constant.Value, from, to *ssa.BasicBlock) string {
+	if len(m) == 0 {
+		return ""
+	}
+	var ks []string
+	for k, v := range m {
+		ks = append(ks, k.Name()+"="+v.ExactString())
+	}
+	sort.Strings(ks)
+	return strings.Join(ks, ",")
 }
 
 func contradictsConst(f Fact) bool {
